@@ -555,6 +555,106 @@ def glsUpdateAbs (W : List (List Rat)) (msd : List Rat) : Rat × Rat × Rat :=
   let cancel := (kappa * mu + lam * lam) / den
   ((kappa * xi + lam * nu) / den * cancel, (mu * nu + lam * xi) / den * cancel, kappa / den * cancel)
 
+/-! ### `_diffusion_gls` — the fixed-point iteration.  Parameters of the model: the matrix inverse `inv` (the run uses
+    Gauss–Jordan elimination over `ℚ`, `matInv`; the code `np.linalg.inv`) and the rounding `rnd` of the iterated state
+    `(intercept, slope)` (the run rounds to the nearest double, as the code's state variables are doubles — this also keeps
+    the exact rationals from growing from iteration to iteration; the theorems hold for every `inv` and `rnd`). -/
+
+/-- `tolerance` -/
+def glsTol : Rat := 1 / 10000
+
+/-- `fallback`: `_diffusion_ols(lag_idx[:2], mean_squared_displacements[:2], num_points)` -/
+def glsFallback (rows : List MsdRow) (n : Nat) : Except String (Rat × Rat × Rat) :=
+  let pts := ptsOf (rows.take 2)
+  if olsDen pts = 0 then .error "Error:ZeroDivisionError"
+  else
+    let ab := olsLine pts
+    .ok (ab.1, ab.2, olsVarSlope (pts.map (·.1)) (n : Rat) ab.1 ab.2)
+
+/-- the `for … else` loop of `_diffusion_gls` (`fuel` iterations left; falling out of it is the fallback) -/
+def glsLoop (inv : List (List Rat) → Option (List (List Rat))) (rnd : Rat → Rat) (rows : List MsdRow) (msd : List Rat)
+    (n : Nat) : Nat → Rat → Rat → Except String (Rat × Rat × Rat)
+  | 0, _, _ => glsFallback rows n
+  | fuel + 1, a, b =>
+    match inv (covMatrix msd.length (n : Rat) a b) with
+    | none => glsFallback rows n
+    | some W =>
+      if glsKappa W * glsMu W - glsLam W * glsLam W = 0 then .error "nonfinite"
+      else
+        let u := glsUpdate W msd a b
+        let a' := rnd u.intercept
+        let b' := rnd u.slope
+        if rabs (a' - a) + rabs (b' - b) < glsTol then .ok (a', b', u.varSlope)
+        else glsLoop inv rnd rows msd n fuel a' b'
+
+/-- `_diffusion_gls(lag_idx, mean_squared_displacements, num_points)` -/
+def glsFit (inv : List (List Rat) → Option (List (List Rat))) (rnd : Rat → Rat) : GlsFn := fun rows n =>
+  match rows.map (·.msd) with
+  | m0 :: m1 :: rest => glsLoop inv rnd rows (m0 :: m1 :: rest) n 100 (2 * m0 - m1) (m1 - m0)
+  | _ => .error "IndexError"
+
+/-! #### the instances the run executes -/
+
+/-- one column of Gauss–Jordan elimination on the augmented matrix: pivot = first row at or below the diagonal with a
+    non-zero entry -/
+def gjStep (A : List (List Rat)) (c : Nat) : Option (List (List Rat)) :=
+  match (A.drop c).findIdx? (fun row => row.getD c 0 != 0) with
+  | none => none
+  | some k =>
+    let i := c + k
+    let pr := A.getD i []
+    let p := pr.getD c 0
+    let prN := pr.map (· / p)
+    let A1 := (A.set i (A.getD c [])).set c prN
+    some (A1.zipIdx.map fun rw =>
+      if rw.2 = c then rw.1 else List.zipWith (fun x y => x - rw.1.getD c 0 * y) rw.1 prN)
+
+/-- the inverse of a square matrix over `ℚ` (`none` when singular) -/
+def matInv (M : List (List Rat)) : Option (List (List Rat)) :=
+  let K := M.length
+  let aug := M.zipIdx.map fun rw => rw.1 ++ (List.range K).map fun j => if rw.2 = j then (1 : Rat) else 0
+  ((List.range K).foldlM gjStep aug).map fun A => A.map (·.drop K)
+
+/-- the exact value of a finite double -/
+def floatToRat (f : Float) : Rat :=
+  let b : Nat := f.toBits.toNat
+  let e : Nat := (b >>> 52) % 2048
+  let m : Nat := b % 2 ^ 52
+  let full : Nat := m + 2 ^ 52
+  let mag : Rat :=
+    if e = 0 then (m : Rat) / ((2 ^ 1074 : Nat) : Rat)
+    else if 1075 ≤ e then ((full * 2 ^ (e - 1075) : Nat) : Rat)
+    else (full : Rat) / ((2 ^ (1075 - e) : Nat) : Rat)
+  if b >>> 63 = 1 then -mag else mag
+
+/-- round to the nearest double -/
+def rndDouble (q : Rat) : Rat := floatToRat (ratToFloat q)
+
+/-- is some iteration's stop criterion `change < tolerance` within 1e-3·tolerance of equality (the run's instance; the
+    correspondence check does not compare such cases)? -/
+def glsTieLoop (rows : List MsdRow) (msd : List Rat) (n : Nat) : Nat → Rat → Rat → Bool
+  | 0, _, _ => false
+  | fuel + 1, a, b =>
+    match matInv (covMatrix msd.length (n : Rat) a b) with
+    | none => false
+    | some W =>
+      if glsKappa W * glsMu W - glsLam W * glsLam W = 0 then false
+      else
+        let u := glsUpdate W msd a b
+        let a' := rndDouble u.intercept
+        let b' := rndDouble u.slope
+        let ch := rabs (a' - a) + rabs (b' - b)
+        if rabs (ch - glsTol) ≤ glsTol / 1000 + (rabs a' + rabs b') / 1000000000 then true
+        else if ch < glsTol then false
+        else glsTieLoop rows msd n fuel a' b'
+
+def glsModelled : GlsFn := fun rows n =>
+  match rows.map (·.msd) with
+  | m0 :: m1 :: rest =>
+    if glsTieLoop rows (m0 :: m1 :: rest) n 100 (2 * m0 - m1) (m1 - m0) then .error "tie"
+    else glsFit matInv rndDouble rows n
+  | _ => glsFit matInv rndDouble rows n
+
 /-! ### tolerance scales (DESIGN §2.2) — the same formulas with every subtraction replaced by an
     addition of absolute values; used only by the correspondence check to bound the rounding error of
     the implementation's doubles in a conditioning-aware way.  No theorem is about them. -/
@@ -688,7 +788,8 @@ def ensembleVarScales (tracks : List (List MsdRow)) (lags : List Int) : List Rat
   `c09.optraw le|inf|nan n`               → `ok numSlope numIntercept`  (`optimal_points`) | `tie`
   `c09.glsupd [row;row;…] [msd] a b`      → `ok change slope intercept varSlope  sSlope sIntercept sVar` (`_update_gls_estimate`)
   `c09.est [frames] [xs] dt R method L|N lv|N vlv|N` → `ok value var lv numLags|N` (`KymoTrack.estimate_diffusion`, the dispatcher;
-                                             a GLS fit itself answers `gls-not-modelled`)
+                                             a GLS fit of a track of more than 7 points answers `gls-not-modelled`:
+                                             exact elimination is too slow there; `tie` also when a GLS stop criterion is within 0.1 %)
   (`tie`: a sign / `floor` the code branches on is decided by the last bits of a double: nothing to compare) -/
 def handle : List String → Option String
   | ["c09.msd", fs, xs, L] => do
@@ -823,7 +924,7 @@ def handle : List String → Option String
     if auto ∧ 5 ≤ t.length ∧ signTies (ptsOf (msdCounts t none)) then some "tie"
     else some (showExcept (fun (r : Est × Option Int) =>
       showRats [r.1.value] ++ " " ++ (if r.1.varDefined then showRat r.1.var else "nonfinite") ++ " " ++ showRats [r.1.lv]
-        ++ " " ++ showOptInt r.2) (estimateDiffusion optimalPointsT glsUnmodelled t dt R method L lv vlv))
+        ++ " " ++ showOptInt r.2) (estimateDiffusion optimalPointsT (if t.length ≤ 7 then glsModelled else glsUnmodelled) t dt R method L lv vlv))
   | _ => none
 
 end Verif.C09
